@@ -56,6 +56,7 @@ def run_check(prop, tier, seed):
         # ---- TV: traces from the real code, validated by TLC
         tdir = os.path.join(scratch, 'traces')
         crashes = []
+        crash_files = {}
         for drv in plan.get('drivers', []):
             t = drv.get('tiers', {}).get(tier, {})
             h = harness_race if drv.get('race') else harness
@@ -75,6 +76,7 @@ def run_check(prop, tier, seed):
             for s in sums:
                 if s.get('crash'):
                     crashes.append((prop + '.crash', s['req'], 'driver %s shard %d: the process died inside the call (%s)' % (s['driver'], s['shard'], s['how'])))
+                    crash_files[id(s['req'])] = s.get('files', [])
                 for op, n in s['ops'].items():
                     cov['driver_ops'][op] = cov['driver_ops'].get(op, 0) + n
         files = sorted(glob.glob(os.path.join(tdir, '*.ndjson')))
@@ -108,6 +110,7 @@ def run_check(prop, tier, seed):
         # ---- extra legs (graphs, MBT) are plug-ins: each returns (coverage-part, mismatches)
         extra_bads = list(crashes)
         unreproduced = []
+        not_reproduced = []
         for leg in plan.get('legs', []):
             if leg == 'apalache_masks':
                 leg = vf.apalache_masks_leg
@@ -147,10 +150,22 @@ def run_check(prop, tier, seed):
             elif code.endswith('.crash'):
                 # "returns normally" failed in the strongest way: confirmed by re-executing the request alone
                 again, how = vf.replay_crash(harness, evs, scratch)
+                if not again and crash_files.get(id(evs)):
+                    # the call alone returns: it may need what the process did before (everything the shard
+                    # had recorded up to the call is re-executed, then the call)
+                    hist = []
+                    for f in crash_files[id(evs)]:
+                        with open(f) as fh:
+                            hist += [json.loads(l) for l in fh if l.strip()]
+                    again, how = vf.replay_crash(harness, hist + [evs[-1]], scratch)
+                    if again:
+                        note += ' (needs the %d preceding calls of the driver process: state leaks between calls)' % len(hist)
+                        evs = hist + [evs[-1]]
                 if not again:
-                    raise vf.HarnessError('%s, but the request alone completes in a fresh process; not a verdict' % note)
+                    not_reproduced.append('%s, but the request completes in a fresh process, alone and after the recorded history' % note)
+                    continue
                 if claimed(code, plan['codes']):
-                    violations.append((code, evs, note + '; again when executed alone in a fresh process (%s)' % how, None))
+                    violations.append((code, evs, note + '; again when re-executed in a fresh process (%s)' % how, None))
                 else:
                     others.append((code, note))
             elif code == 'C19.race':
@@ -160,7 +175,6 @@ def run_check(prop, tier, seed):
 
         replayed_codes = {}
         conc_info = {}
-        not_reproduced = []
         for (code, evs, target, note, origin) in pending:
             if not claimed(code, plan['codes']):
                 others.append((code, note))
